@@ -219,3 +219,51 @@ def hook(check, failed, mism):
         if failed:
             body += "broken obligations: " + "; ".join(n for n, _ in failed[:8]) + "\n"
         check.violation(g["key"], text, True, body)
+
+
+def replay(path):
+    """bin/check C19 --replay FILE: re-extracts the facts of the replay's build target from the repository's
+    current working tree and re-evaluates the statement; exit 1 if the recorded fact still fails"""
+    import re, shutil
+    repo = os.environ.get("VERIF_REPO", "/repo")
+    text = open(path).read()
+    m = re.search(r"^failing input: build target (\S+)", text, re.M)
+    fact = re.search(r"^constant/fact: (.*)$", text, re.M)
+    if not m:
+        # a correspondence replay (GetInfo / go build / go vet): the recorded command or request is in the file
+        print(text)
+        cmd = re.search(r"^failing input: target \S+: (cd .*)$", text, re.M)
+        if cmd:
+            p = subprocess.run(["sh", "-c", cmd.group(1)], capture_output=True, text=True, timeout=1800)
+            print((p.stdout + p.stderr)[-3000:])
+            print("still failing" if p.returncode != 0 else "passes now")
+            return 1 if p.returncode != 0 else 0
+        return 0
+    target = m.group(1)
+    env = dict(os.environ, GOFLAGS="-mod=mod", GOPROXY="off", GOSUMDB="off", GOTOOLCHAIN="local", CGO_ENABLED="0")
+    vx = os.path.join(VERIF, "harness", "bin", "vextract")
+    if not os.path.exists(vx):
+        subprocess.run(["go", "build", "-tags", "verif", "-o", os.path.join(VERIF, "harness", "bin") + "/", "./cmd/vextract"],
+                       cwd=os.path.join(VERIF, "harness"), env=env, check=True, timeout=900)
+    d = tempfile.mkdtemp(prefix="c19-replay")
+    try:
+        js = os.path.join(d, "facts.json")
+        p = subprocess.run([vx, "-repo", repo, "-out", d, "-json", js, "-only", "consts", "-targets", target], env=env,
+                           capture_output=True, text=True, timeout=900)
+        if p.returncode != 0:
+            print("vextract failed:", p.stdout, p.stderr)
+            return 2
+        findings, _ = search(json.load(open(js)))
+    finally:
+        shutil.rmtree(d, ignore_errors=True)
+    hit = [g for g in findings if target in g["targets"] and (not fact or g["name"] == fact.group(1).strip())]
+    print("replay of %s on %s, target %s" % (path, repo, target))
+    for g in hit:
+        print("STILL FAILS: %s: %s = %s, expected %s %s" % (target, g["name"], hexv(g["value"]) if isinstance(g["value"], int) else g["value"],
+                                                           hexv(g["expected"]) if isinstance(g["expected"], int) else g["expected"], g["detail"]))
+        c = confirm_with_compiler(repo, dict(g, targets=[target]))
+        if c:
+            print(c)
+    if not hit:
+        print("the recorded fact holds on the current tree")
+    return 1 if hit else 0
